@@ -88,3 +88,17 @@ TECHNIQUE = 'property-based testing: Hypothesis-generated elections x rules x op
 LEVEL_TEXT = ('generated search (about 5*10^4 counts per quick run, 10^6 thorough, plus exhaustive small scope) with a validity '
               'predicate on the final outcome and every recorded action; finds counter-examples, never proves absence')
 LEVEL_NOTE = 'trusts the case model -> BLT rendering and droop\'s own profile reader for input; termination only observed within 3*ncand+3 rounds ((ncand+1)^2+2 for qpq)'
+
+
+# ---- thorough tier: exhaustive small scope (enumeration inside the same harness and oracle)
+EXTRA_EXHAUSTIVE = {'quick': False, 'thorough': False}     # the small scope is complete; the generated part is a sample
+
+
+def extra_chunks(tier, seed):
+    from .. import smallscope
+    return smallscope.chunks(model.ALL_RULES) if tier == 'thorough' else []
+
+
+def extra_cases(tier, seed, chunk):
+    from .. import smallscope
+    return smallscope.cases(chunk, decorate=None)
